@@ -451,6 +451,8 @@ def main():
                 continue
             if opts.get('tier') == 'thorough' and tier == 0:
                 continue
+            if opts.get('tier') == 'manual' and not (only and root in only):
+                continue   # exploratory harness: runs only when named with --only, never part of a registered check
             if opts.get('tier') == 'quick' and tier == 1 and opts.get('also_thorough') != '1':
                 pass
             fq = None
